@@ -158,3 +158,19 @@ Theorem C13_source_signer_selection_is_the_model : forall c now,
   G_getSignerCert c now = PVal (get_signer_cert c) /\ G_getSigningCert c now = PVal (get_signing_cert c).
 Proof. intros c now. exact (conj (G_getSignerCert_eq c now) (G_getSigningCert_eq c now)). Qed.
 Print Assumptions C13_source_signer_selection_is_the_model.
+
+(* source tie: the element handed to the signing step by the TRANSLATED builders of this run is the model's element, and the
+   signed element is what the builder returns (nothing is added after signing); signing happens iff requested *)
+From V Require Import GenPrelude GenPreludeB GenBuild P_GenBuild.
+Theorem C13_source_builders_sign_the_model_element : forall (sign_el : node -> res node) cfg now id incl name_id session_index status_code req_id,
+  G_buildAuthnRequest sign_el cfg now incl id
+    = PVal (built sign_el (b_sign_authn_requests cfg && incl) (build_authn_request cfg id now)) /\
+  G_buildLogoutRequest sign_el cfg now incl name_id session_index id
+    = PVal (built sign_el incl (build_logout_request cfg id now name_id session_index)) /\
+  G_buildLogoutResponse sign_el cfg now status_code req_id incl id
+    = PVal (built sign_el incl (build_logout_response cfg id now status_code req_id)).
+Proof.
+  exact (fun s cfg now id incl n si sc rq => conj (G_buildAuthnRequest_is_model s cfg now incl id)
+          (conj (G_buildLogoutRequest_is_model s cfg now incl n si id) (G_buildLogoutResponse_is_model s cfg now sc rq incl id))).
+Qed.
+Print Assumptions C13_source_builders_sign_the_model_element.
